@@ -410,8 +410,8 @@ def props_repo():
 # C08: run-time checks emitted for indexing, slicing and make.  Each case: a Go function, the J0 kinds of its parameters,
 # the Go-specification panic condition and the expected result.
 class SpecCase:
-    def __init__(self, name, gosrc, params, panic, msg, result=None, mode='jn'):
-        self.name, self.gosrc, self.params, self.panic, self.msg, self.result, self.mode = name, gosrc, params, panic, msg, result, mode
+    def __init__(self, name, gosrc, params, panic, msg, result=None, mode='jn', pre=None):
+        self.name, self.gosrc, self.params, self.panic, self.msg, self.result, self.mode, self.pre = name, gosrc, params, panic, msg, result, mode, pre
 
 def elem(ex, st, s, i):
     return z3.Select(z3.Select(ex.heap(st), s.fields['$array'].ident), s.fields['$offset'] + i)
@@ -436,6 +436,16 @@ def c08_cases():
     C.append(SpecCase('IdxStrC', 'func IdxStrC(s string) byte { return s[2] }', [('s', 'str')],
                       lambda ex, st, P: 2 >= P['s'].len, 'index out of range',
                       lambda ex, st0, st, P, r: [('value', r == z3.Select(P['s'].arr, P['s'].off + 2))]))
+    aelem = lambda ex, st, a, i: z3.Select(z3.Select(ex.heap(st), a.ident), i)
+    C.append(SpecCase('IdxA', 'func IdxA(a [4]int32, i int) int32 { return a[i] }', [('a', 'arr'), ('i', 'int32')],
+                      lambda ex, st, P: oob(P['i'], 4), 'index out of range',
+                      lambda ex, st0, st, P, r: [('value', r == aelem(ex, st0, P['a'], P['i']))], pre=lambda ex, st, P: P['a'].length == 4))
+    C.append(SpecCase('IdxAP', 'func IdxAP(a *[4]int32, i int) int32 { return a[i] }', [('a', 'arrptr4'), ('i', 'int32')],
+                      lambda ex, st, P: z3.Or(P['a'].isnil, oob(P['i'], 4)), None,
+                      lambda ex, st0, st, P, r: [('value', r == aelem(ex, st0, P['a'], P['i']))]))
+    C.append(SpecCase('SetAP', 'func SetAP(a *[4]int32, i int, v int32) { a[i] = v }', [('a', 'arrptr4'), ('i', 'int32'), ('v', 'int32')],
+                      lambda ex, st, P: z3.Or(P['a'].isnil, oob(P['i'], 4)), None,
+                      lambda ex, st0, st, P, r: [('stored', aelem(ex, st, P['a'], P['i']) == P['v'])]))
     def sl_res(lo, hi, mx):
         def f(ex, st0, st, P, r):
             s = P['s']
@@ -514,6 +524,8 @@ def _verify_spec_case(self, case, fn):
     for (pn, pt) in case.params:
         P[pn] = st.env[pn] = self.make_param(st, pn, pt)
     self.heap(st)
+    if case.pre is not None:
+        st.pc.append(case.pre(self, st, P))
     entry = st.clone(); st.entry = entry; entry.entry = entry
     pc = case.panic(self, st, P)
     body = fn['body']
@@ -528,7 +540,10 @@ def _verify_spec_case(self, case, fn):
             r = info[0] if (how == 'return' and info) else None
             if isinstance(r, MaybeNaN):
                 self.oblige(state, 'result-not-NaN', z3.Not(r.nan)); r = r.val
-            if case.result is not None:
+            from .jsexec import JSUndef
+            if isinstance(r, JSUndef):
+                self.oblige(state, 'result-defined', z3.BoolVal(False))
+            elif case.result is not None:
                 for (nm, g) in case.result(self, entry, state, P, r):
                     self.oblige(state, nm, g)
         elif how == 'panic':
